@@ -9,6 +9,7 @@ package main
 import (
 	"encoding/json"
 	"fmt"
+	"math/rand"
 	"reflect"
 	"sort"
 
@@ -176,9 +177,31 @@ func runOnce(c *caseT, o runOpts, preflight bool) (out runOut) {
 			for _, x := range altsOf(n) {
 				ends[int(x.ReaderPos())-c.B] = true
 			}
-			out.outs = append(out.outs, J{"n": a.N, "p": a.P, "res": shallow(n), "cp": t.cpJ(cp), "err": errJ(err),
-				"calls": ctx.CallCount(), "cerr": errJ(ctx.Error()), "ends": sortedInts(ends)})
+			oj := J{"n": a.N, "p": a.P, "res": shallow(n), "cp": t.cpJ(cp), "err": errJ(err),
+				"calls": ctx.CallCount(), "cerr": errJ(ctx.Error()), "ends": sortedInts(ends)}
+			if o.trees {
+				oj["tr"] = renderNode(n)
+			}
+			out.outs = append(out.outs, oj)
 			if t.watch != nil {
+				out.mutations = append(out.mutations, t.watch.reobserve()...)
+			}
+		}
+		if t.watch != nil {
+			// ask everything again (quietly): a memoised parser asked again at the same position gives the same answer
+			t.quiet = true
+			first := map[[2]int]string{}
+			for pass := 0; pass < 2; pass++ {
+				for _, a := range c.Asks {
+					n, _, _ := ps[a.N-1].Parse(ctx, data.EmptyIntMap, parsley.Pos(a.P))
+					r := renderNode(n)
+					k := [2]int{a.N, a.P}
+					if f, ok := first[k]; !ok {
+						first[k] = r
+					} else if f != r {
+						out.mutations = append(out.mutations, J{"k": -1, "n": a.N, "pos": a.P, "at_return": json.RawMessage(f), "now": json.RawMessage(r), "kind": "asked again"})
+					}
+				}
 				out.mutations = append(out.mutations, t.watch.reobserve()...)
 			}
 		}
@@ -254,6 +277,8 @@ func parseMain(mode string, a args) {
 		parseReplay(a)
 	case "gen":
 		parseGen(a)
+	case "c03":
+		parseC03(a)
 	default:
 		die("parse: unknown mode %q", mode)
 	}
@@ -287,6 +312,9 @@ func parseReplay(a args) {
 		events += len(o.events)
 		if o.api != nil {
 			trace.put(o.api)
+		}
+		for _, m := range o.mutations {
+			trace.put(J{"ev": "mutation", "n": m["n"], "pos": m["pos"], "at_return": m["at_return"], "now": m["now"]})
 		}
 		if o.bound {
 			viol = append(viol, J{"prop": "C02", "case": json.RawMessage(append([]byte{}, line...)), "what": "re-entry bound exceeded", "event": o.events[len(o.events)-1]})
@@ -337,4 +365,139 @@ func hasTrims(G []gnode) bool {
 		}
 	}
 	return false
+}
+
+// ---- C03: Memoize is transparent, deterministic, at most once per position -------------------------------
+
+func stripMemo(G []gnode) []gnode {
+	r := make([]gnode, len(G))
+	copy(r, G)
+	for i := range r {
+		if r[i].K == "memo" {
+			r[i].K = "pass"
+		}
+	}
+	return r
+}
+
+// memoWrap puts an extra Memoize around the nodes in M (1-based ids); wrappers are appended, references redirected
+func memoWrap(G []gnode, M map[int]bool, root int) []gnode {
+	newID := map[int]int{}
+	next := len(G)
+	for i := 1; i <= len(G); i++ {
+		if M[i] && i != root && G[i-1].K != "memo" && G[i-1].K != "pass" {
+			next++
+			newID[i] = next
+		}
+	}
+	r := make([]gnode, 0, next)
+	for _, n := range G {
+		kids := make([]int, len(n.Kids))
+		for j, k := range n.Kids {
+			kids[j] = k
+			if nk, ok := newID[k]; ok {
+				kids[j] = nk
+			}
+		}
+		n.Kids = kids
+		r = append(r, n)
+	}
+	for i := 1; i <= len(G); i++ {
+		if _, ok := newID[i]; ok {
+			r = append(r, gnode{K: "memo", Kids: []int{i}})
+		}
+	}
+	return r
+}
+
+func c03Line(c *caseT, budget int) (J, bool) {
+	memo := runCase(c, runOpts{budget: budget, trees: true})
+	if memo.over || memo.bound {
+		return nil, false
+	}
+	plainCase := *c
+	plainCase.G = stripMemo(c.G)
+	plain := runCase(&plainCase, runOpts{budget: 4 * budget, trees: true})
+	if plain.over || plain.bound {
+		return nil, false
+	}
+	memo2 := runCase(c, runOpts{budget: budget, trees: true})
+	maxbody := 0
+	for _, v := range memo.bodyRuns {
+		if v > maxbody {
+			maxbody = v
+		}
+	}
+	pick := func(o runOut) []J {
+		r := []J{}
+		for _, x := range o.outs {
+			r = append(r, J{"n": x["n"], "p": x["p"], "res": x["res"], "err": x["err"], "cerr": x["cerr"], "calls": x["calls"], "tr": x["tr"]})
+		}
+		return r
+	}
+	return J{"ev": "c03", "G": c.G, "w": c.W, "B": c.B, "memo": pick(memo), "plain": pick(plain), "memo2": pick(memo2), "maxbody": maxbody}, true
+}
+
+func parseC03(a args) {
+	o := newOut(a.str("out", ""))
+	budget := a.num("budget", 3000)
+	n, skipped := 0, 0
+	if in := a.str("in", ""); in != "" {
+		// cases exported by ParsleyMC (left-recursion-free family, extra Memoize wrappers)
+		readLines(in, func(line []byte) {
+			var c caseT
+			if err := json.Unmarshal(line, &c); err != nil {
+				die("bad case: %v", err)
+			}
+			c.Root = c.Asks[0].N
+			if l, ok := c03Line(&c, budget); ok {
+				o.put(l)
+				n++
+			} else {
+				skipped++
+			}
+		})
+	} else {
+		r := rand.New(rand.NewSource(int64(a.num("seed", 1))))
+		want := a.num("n", 100)
+		opts := genOpts{maxNT: 3, named: 2, lrfree: true, share: true, alphabet: []int{97, 98}}
+		for tried := 0; n < want && tried < want*300; tried++ {
+			G, root, nts := genGrammar(r, opts)
+			adm, lrf := admissibleG(G)
+			if !adm || !lrf {
+				continue
+			}
+			// any subset of the sub-parsers may be memoised
+			M := map[int]bool{}
+			switch r.Intn(3) {
+			case 0:
+				for i := 1; i <= len(G); i++ {
+					M[i] = true
+				}
+			case 1:
+				for i := 1; i <= len(G); i++ {
+					M[i] = r.Intn(2) == 0
+				}
+			}
+			GW := memoWrap(G, M, root)
+			for k := 0; k < 3 && n < want; k++ {
+				w := randInput(r, opts.alphabet, a.num("maxlen", 7))
+				c := &caseT{G: GW, W: w, B: 1, Adm: true, Root: root}
+				c.Asks = append(c.Asks, askT{N: root, P: 1})
+				for _, nt := range nts {
+					for p := 0; p <= len(w); p += 2 {
+						c.Asks = append(c.Asks, askT{N: nt, P: 1 + p})
+					}
+				}
+				if l, ok := c03Line(c, budget); ok {
+					o.put(l)
+					n++
+				} else {
+					skipped++
+				}
+			}
+		}
+	}
+	o.close()
+	fmt.Printf("{\"cases\":%d,\"skipped_budget\":%d}\n", n, skipped)
 }
